@@ -397,6 +397,15 @@ def direct_clauses(pid, bench, ta, a, tb, b):
         if pid == "C08" and x is a:
             # three constraints: the two versions with a ranked version of the pool between or beside them
             mids = [cl[0] for cl in bench.pool.classes[:: max(1, bench.pool.n() // 6)]][:6]
+            # ... and versions made from the two themselves (another qualifier word, the qualifier cut off): what lies
+            # BETWEEN two versions that are equal without being neighbours is made this way
+            import random as _random
+            _r = _random.Random(len(tx) * 31 + len(ty))
+            for t in pools.word_neighbours(bench.name, tx, _r) + pools.word_neighbours(bench.name, ty, _r) + pools.cut_tails(tx):
+                try:
+                    mids.append((t, S.make(bench.name, t)))
+                except Exception:  # noqa: BLE001
+                    pass
             for tm, mv in mids:
                 for cs3 in (((">=", x), ("<", mv), (">=", y)), (("<=", x), (">", mv), ("<=", y)), (("=", x), ("!=", mv), ("=", y))):
                     try:
